@@ -18,7 +18,7 @@ func init() {
 			"(operator-table) Clone = one unconditional pass over the receiver; Intersect = receiver filtered by other.Has; SetDiff = receiver filtered by !other.Has; SymDiff = SetDiff plus a pass over other filtered by !receiver.Has; Union = clone of the receiver plus every element of other - for maps.Set and sync2.Set alike (sibling agreement is then immediate), every enumeration complete (callbacks return true; no early exit); " +
 			"(operands-readonly / result-fresh) every mutating call or raw map write in the read-only and binary operations targets storage created in the same call, and the returned set is that fresh storage on EVERY path (a shortcut returning an operand is refuted); " +
 			"(change-reporting) maps.Set.Add/Remove store/delete exactly on the path that reports true, guarded by (non-)membership of the same value; AddSet/RemoveSet perform one Add/Remove per enumerated value, count exactly the successes, never cut the enumeration short; " +
-			"(range-stops) each Range leaves its loop when the callback returns false (sync2: hands the result to Map.Range); (enumeration-source) sync2.Set's Len/Slice/String/Clone enumerate through Map.Range - the only enumeration that skips deleted and expunged entries - and maps.Set's through range/len of the map; (ctor) NewSetFrom* add every element/key/value of their argument to a fresh set; CartesianProduct appends one Product per (a,b) in nested complete enumerations. " +
+			"(range-stops) each Range leaves its loop when the callback returns false (sync2: hands the result to Map.Range); (enumeration-source) sync2.Set's Len/Slice/String/Clone enumerate through Map.Range - the only enumeration that skips deleted and expunged entries - once on every returning path, and no sync2.Set method touches a field of the Map itself - and maps.Set's through range/len of the map; (ctor) NewSetFrom* add every element/key/value of their argument to a fresh set; CartesianProduct appends one Product per (a,b) in nested complete enumerations. " +
 			"The concurrent set's layouts (read map / dirty map / deleted entries) are covered through the C04 map protocol rules, re-run here as map/*. NOT decided: element-level equality of results for all operand pairs (follows from the pass table plus Go map / Map.Range semantics, which are assumed).",
 		assumptions: []string{"Go map semantics; sync2.Map.Range visits each live key once (C04 range rule covers the necessary shape)", "callbacks given to Range are the closures analysed"},
 	})
@@ -49,7 +49,7 @@ func runC03(c *Ctx) {
 	R.Rule("result-fresh", "the returned set is freshly created storage on every path", 10)
 	R.Rule("change-reporting", "Add/Remove mutate exactly on the path that reports true, guarded by (non-)membership; AddSet/RemoveSet count exactly the per-element successes over a complete enumeration", 4)
 	R.Rule("range-stops", "Range leaves the loop when the callback returns false", 2)
-	R.Rule("enumeration-source", "Len/Slice/String/Has enumerate or look up through the right primitive (sync2: Map.Range / Map.Load; maps: the map itself)", 7)
+	R.Rule("enumeration-source", "Len/Slice/String/Has enumerate or look up through the right primitive (sync2: Map.Range / Map.Load, on every path, never the Map's fields; maps: the map itself)", 19)
 	R.Rule("ctor", "NewSetFromSlice/Keys/Values add every element of the argument to a fresh set; CartesianProduct = nested complete enumerations appending one Product per pair", 7)
 
 	impls := []setImpl{{"maps", "Set", "maps.(Set).", false}, {"sync2", "Set", "sync2.(*Set).", true}}
